@@ -138,7 +138,7 @@ theorem div_denotes (I : Interp) {a b t : Term} (h : Mk.Div a b = .ok t) :
     (∀ x y : Int, y ≠ 0 → eval I a = .i x → eval I b = .i y → eval I t = .i (x / y)) := by
   unfold Mk.Div at h
   split at h
-  · next p c =>
+  · next c =>
     split at h
     · next hc =>
       subst hc
@@ -147,7 +147,7 @@ theorem div_denotes (I : Interp) {a b t : Term} (h : Mk.Div a b = .ok t) :
       · simp [eval_op, evalOp] at hb; exact absurd hb.symm hy
       · simp [eval_op, evalOp] at hb
     · next hc =>
-      have hcv : eval I (.node .realConst p (.q c)) = .r c := by simp [eval_op, evalOp]
+      have hcv : eval I (.node .realConst [] (.q c)) = .r c := by simp [eval_op, evalOp]
       refine ⟨fun x y hy ha hb => ?_, fun x y hy ha hb => ?_⟩
       · have hyc : y = c := by rw [hcv] at hb; cases hb; rfl
         subst hyc
